@@ -1196,6 +1196,12 @@ func (sc *serverConn) handleHeaderFrame(strm *Stream, fr *FrameHeader) error {
 			break
 		}
 
+		if len(b) == 0 && hf.Empty() {
+			// Everything in this fragment was a dynamic table size update:
+			// nothing was decoded into hf, so there is no field to process.
+			break
+		}
+
 		k, v := hf.KeyBytes(), hf.ValueBytes()
 
 		// RFC 7540 6.5.2 sizes a field as name + value + 32. The running total
